@@ -154,8 +154,12 @@
         forall|t: K| #[trigger] self.tenant_group@.contains_key(t) ==> self.tenant_group@[t].hits(*param).len() <= usize::MAX,
     // C09: total = number of matches in the permitted namespaces; page = window [offset, offset+limit) of THE canonical list
     // C18: a namespace the privilege does not permit contributes nothing (result_list skips it)
-    ensures r.0 == self.result_list(*param).len(),
-        r.1@ == page(self.result_list(*param), param.offset as int, param.limit as int),
+    ensures ({
+        // <<abstract:tenant_page   (unit config assumes exactly this text for its callee contract: [[same_block]])
+        &&& r.0 == self.result_list(*param).len()
+        &&& r.1@ == page(self.result_list(*param), param.offset as int, param.limit as int)
+        // >>abstract
+    }),
 @@ TenantIndex::query_config_page entry
     broadcast use group_btree_axioms;
     broadcast use group_std_extra;
